@@ -29,6 +29,9 @@ type Schema struct {
 	Alpha  []int
 }
 
+// ShowList is the protocol form of an index list.
+func ShowList(l []int) string { return showList(l) }
+
 func showList(l []int) string {
 	if len(l) == 0 {
 		return "-"
